@@ -4,6 +4,7 @@ import (
 	"bytes"
 	"context"
 	"math"
+	"sync"
 	"time"
 
 	"github.com/pkg/errors"
@@ -27,6 +28,7 @@ type TempPool struct {
 	cleanRemovedNewOperationsDeep     int
 	cleanRemovedProposalDeep          int
 	cleanRemovedBallotDeep            int
+	setlock                           sync.Mutex // NOTE keeps "check exists, then put" of Set...() atomic
 }
 
 func NewTempPool(
@@ -169,6 +171,9 @@ func (db *TempPool) SetProposal(pr base.ProposalSignFact) (bool, error) {
 	default:
 		pst = i
 	}
+
+	db.setlock.Lock()
+	defer db.setlock.Unlock()
 
 	key := leveldbProposalKey(pr.Fact().Hash())
 
@@ -408,6 +413,9 @@ func (db *TempPool) SetOperation(_ context.Context, op base.Operation) (bool, er
 	default:
 		pst = i
 	}
+
+	db.setlock.Lock()
+	defer db.setlock.Unlock()
 
 	oph := op.Hash()
 
@@ -779,6 +787,9 @@ func (db *TempPool) SetBallot(bl base.Ballot) (bool, error) {
 		pst = i
 	}
 
+	db.setlock.Lock()
+	defer db.setlock.Unlock()
+
 	key := leveldbBallotKey(bl.Point(), isaac.IsSuffrageConfirmBallotFact(bl.SignFact().Fact()))
 
 	var blb []byte
@@ -834,6 +845,9 @@ func (db *TempPool) AddEmptyHeight(height base.Height) (bool, error) {
 		pst = i
 	}
 
+	db.setlock.Lock()
+	defer db.setlock.Unlock()
+
 	key := leveldbEmptyHeight(height)
 
 	switch found, err := pst.Exists(key); {
@@ -853,6 +867,9 @@ func (db *TempPool) RemoveEmptyHeight(height base.Height) (bool, error) {
 	default:
 		pst = i
 	}
+
+	db.setlock.Lock()
+	defer db.setlock.Unlock()
 
 	key := leveldbEmptyHeight(height)
 
